@@ -42,6 +42,22 @@ var equalOpts = gcmp.Options{
 }
 
 func OpEqual[T any](e1 T, e2 T) bool {
+	// fast paths for the most frequent operands; everything else goes through go-cmp
+	switch v1 := any(e1).(type) {
+	case string:
+		v2, ok := any(e2).(string)
+		return ok && v1 == v2
+	case int:
+		v2, ok := any(e2).(int)
+		return ok && v1 == v2
+	case bool:
+		v2, ok := any(e2).(bool)
+		return ok && v1 == v2
+	}
+	if t1 := reflect.TypeOf(e1); t1 != nil && t1.Kind() == reflect.Struct && t1.NumField() == 0 {
+		// a union case without payload: equal iff it is the same case
+		return t1 == reflect.TypeOf(e2)
+	}
 	return gcmp.Equal(e1, e2, equalOpts)
 }
 
